@@ -78,7 +78,7 @@ def fam_independent(rng):
         k = rng.randrange(8)
         if k < 5:
             point = _t(rng, both if rng.random() < 0.3 else ins)
-            dk = rng.randrange(5)
+            dk = rng.choice([0, 1, 1, 2, 3, 3, 4])     # weight the densities that do not mention the plate
             if dk == 0:
                 logd = Number(0.0)
             elif dk == 1:
@@ -416,7 +416,66 @@ def fam_misc(rng):
     return thunk
 
 
+def fam_subschain(rng):
+    """chained substitutions f(b)(c) on a term that STAYS LAZY under normalize (free real variable under a
+    non-associative op, lazy Stack), so that `normalize_fuse_subs` (a(b)(c) -> a(b(c), c)) runs; every overlap
+    pattern between names(c), the free names of f and the free names of b's values."""
+    def thunk():
+        n = rng.choice([2, 3, 4])
+        Y, W, U, Z = OrderedDict(y=Bint[n]), OrderedDict(w=Bint[n]), OrderedDict(u=Bint[2]), OrderedDict(z=Bint[n])
+
+        def pos(ins):
+            shape = tuple(d.dtype for d in ins.values())
+            vals = [rng.choice([1.0, 2.0, 3.0, 0.5]) for _ in range(int(np.prod(shape)))]
+            return Tensor(np.array(vals).reshape(shape), OrderedDict(ins))
+
+        def idx(ins, size):
+            shape = tuple(d.dtype for d in ins.values())
+            vals = [rng.randrange(size) for _ in range(int(np.prod(shape)))]
+            return Tensor(np.array(vals).reshape(shape), OrderedDict(ins), size)
+        x = Variable("x", Real)
+        body_ins = rng.choice([Y, OrderedDict(list(Y.items()) + list(U.items())), W, OrderedDict()])
+        g = pos(body_ins) if body_ins else Number(2.0)
+        shape_k = rng.randrange(3)
+        if shape_k == 0:
+            f = x ** g
+        elif shape_k == 1:
+            f = Stack("s", (x ** g, g ** x))
+        else:
+            f = (x ** g) ** pos(U)
+        # b: the value substituted for x (mentions y / w / both / nothing)
+        bk = rng.randrange(5)
+        if bk == 0:
+            b = pos(Y)
+        elif bk == 1:
+            b = pos(W)
+        elif bk == 2:
+            b = pos(OrderedDict(list(Y.items()) + list(W.items())))
+        elif bk == 3:
+            b = Number(float(rng.choice([2.0, 3.0])))
+        else:
+            b = pos(Y) * Variable("v", Real)             # a value that itself stays lazy
+        s1 = f(x=b)
+        # c: substitute y and/or w and/or u (index tensor over z / rename / number)
+        c = {}
+        for name, size in (("y", n), ("w", n), ("u", 2)):
+            if name in s1.inputs and rng.random() < 0.7:
+                ck = rng.randrange(3)
+                c[name] = idx(Z, size) if ck == 0 else (Variable("q" + name, Bint[size]) if ck == 1
+                                                        else Number(rng.randrange(size), size))
+        if not c and s1.inputs:
+            name = next(iter(s1.inputs))
+            d = s1.inputs[name]
+            c[name] = Number(rng.randrange(d.dtype), d.dtype) if isinstance(d.dtype, int) else Number(2.0)
+        r = s1(**c)
+        if rng.random() < 0.3 and "v" in r.inputs:
+            r = r(v=Number(2.0))
+        return r
+    return thunk
+
+
 FAMILIES = OrderedDict([
+    ("subschain", fam_subschain),
     ("integrate", fam_integrate), ("scatter", fam_scatter), ("misc", fam_misc),
     ("slices", fam_slices),
     ("contraction", fam_contraction),
@@ -425,11 +484,16 @@ FAMILIES = OrderedDict([
     ("gaussian", fam_gaussian), ("markov", fam_markov),
 ])
 
-EXTRA_MODES = ["eager", "normalize>eager", "normalize", "moment_matching", "lazy>eager", "reflect>eager", "reflect>normalize", "lazy", "reflect>moment_matching",
+EXTRA_MODES = ["eager", "normalize>eager", "normalize", "unfold", "moment_matching", "lazy>eager", "reflect>eager", "reflect>normalize", "lazy", "reflect>moment_matching",
                "reflect>optimizer", "reflect>sequential"]
 
 _INTERP = {"eager": FI.eager, "lazy": FI.lazy, "reflect": FI.reflect, "normalize": FI.normalize,
            "sequential": FI.sequential, "moment_matching": FI.moment_matching}
+try:
+    import funsor.optimizer as _FO
+    _INTERP["unfold"] = _FO.unfold
+except Exception:       # pragma: no cover
+    pass
 
 
 def build(family, subseed):
